@@ -493,7 +493,9 @@ func TestC01(t *testing.T) {
 					aggs := genAggs(t, tab, nil)
 					real := make([]qframe.Aggregation, len(aggs))
 					for i, a := range aggs {
-						a.As = fmt.Sprintf("agg%d", i)
+						if rapid.Bool().Draw(t, "named") {
+							a.As = fmt.Sprintf("agg%d", i) // else the default name: the column's own
+						}
 						real[i] = a.Build(tab.MustCol(a.Col).Kind)
 					}
 					opName = fmt.Sprintf("Aggregate %v", aggs)
@@ -529,6 +531,15 @@ func TestC01(t *testing.T) {
 						real = append(real, qframe.Aggregation{Fn: fn, Column: c.Name, As: "inplace"})
 						opName += " + in-place user aggregation of " + c.Name
 					}
+					aggArgs := func() string {
+						var sb strings.Builder
+						for _, r := range real {
+							fmt.Fprintf(&sb, "{%q as %q} ", r.Column, r.As)
+						}
+						return sb.String()
+					}
+					beforeAggs := aggArgs()
+					argCheck = func() string { return diffStr("aggregation list", beforeAggs, aggArgs()) }
 					run = func() { addFrame(g.Aggregate(real...), opName, newGrp()) }
 				}
 			default: // a view: read it and scribble over its Slice()
